@@ -22,6 +22,9 @@ pub enum Case {
     /// in-memory handler, C05 script oracle on the first message (a Script request)
     HScript(HCase),
     L(crate::lsim::LCase),
+    /// socket path, differential oracle: the scripted segmentation of the single connection's stream
+    /// against the same stream sent in one segment
+    LDiff(crate::lsim::LCase),
     P(crate::psim::PCase),
     K(crate::ksim::KCase),
     Q(crate::qsim::QCase),
@@ -288,7 +291,7 @@ pub fn eval_hscript(case: &HCase) -> RunResult {
             match base {
                 "c1" => cont = true,
                 "c0" => cont = false,
-                "r" | "e" => {
+                "r" | "e" | "ei" | "em" | "en" => {
                     if cont && !v.more {
                         want.push((k, "CallContinuesMismatch"));
                         if !ignore {
@@ -310,7 +313,9 @@ pub fn eval_hscript(case: &HCase) -> RunResult {
                 match got.get(i) {
                     Some((gk, g)) if gk == k => {
                         let gated = *w == "CallContinuesMismatch";
-                        if gated && g != "CallContinuesMismatch" && !v.oneway {
+                        // (also for a oneway request: the attempt itself fails, whether or not anything
+                        // would have been written)
+                        if gated && g != "CallContinuesMismatch" {
                             extra.push(viol(
                                 "C05",
                                 "gate-result",
@@ -354,6 +359,7 @@ pub fn eval(case: &Case) -> RunResult {
         Case::HDiff(c) => eval_hdiff(c),
         Case::HScript(c) => eval_hscript(c),
         Case::L(c) => crate::lsim::eval_l(c),
+        Case::LDiff(c) => crate::lsim::eval_ldiff(c),
         Case::P(c) => crate::psim::eval_p(c),
         Case::K(c) => crate::ksim::eval_k(c),
         Case::Q(c) => crate::qsim::eval_q(c),
@@ -510,6 +516,7 @@ pub fn shrink_candidates(case: &Case) -> Vec<Case> {
             .map(Case::HScript)
             .collect(),
         Case::L(c) => crate::lsim::shrinks(c).into_iter().map(Case::L).collect(),
+        Case::LDiff(c) => crate::lsim::shrinks(c).into_iter().filter(|x| x.conns.len() == 1).map(Case::LDiff).collect(),
         Case::P(c) => crate::psim::shrinks(c).into_iter().map(Case::P).collect(),
         Case::K(c) => crate::ksim::shrinks(c).into_iter().map(Case::K).collect(),
         Case::Q(c) => crate::qsim::shrinks(c).into_iter().map(Case::Q).collect(),
